@@ -46,6 +46,17 @@ def step (s : DSt) (line : String) : DSt × String :=
       let s := if r.calls.any (fun c => c.1 ≥ 200) then { s with g := clear s.g } else s
       (s, s!"seen off={e.off} ts={e.ts} ty={e.ty} data={showNatList e.data} opt={e.opt} calls={showCalls r.calls} errh={showCalls r.errCalls}")
   | ["replay", off, ts, ty, d, opt] =>
+    if d.endsWith "!" then
+      -- the stored payload is a JSON value followed by garbage: a typed upcaster (registered with RegisterUpcast: both names
+      -- are Go types, it returns its declared target, does not fail, and is not one of the racing raw ones) cannot decode
+      -- it, so its step fails; raw upcasters are not used on such events by the generator
+      let typed (u : Upcaster) : Bool := decide (u.src ≥ 100) && decide (u.dst ≥ 100) && u.ret == u.dst && !u.fails && decide (u.tag < 200)
+      let g' := s.g.map (fun u => if typed u then { u with fails := true } else u)
+      let dd := d.dropRight 1
+      let (e, r) := upcastStored g' s.errH ⟨nat! off, nat! ts, nat! ty, natList dd, nat! opt⟩
+      let showD (l : List Nat) : String := showNatList l ++ "!"
+      (s, s!"seen off={e.off} ts={e.ts} ty={e.ty} data={showD e.data} opt={e.opt} calls=- errh={if r.errCalls.isEmpty then "-" else ";".intercalate (r.errCalls.map fun (t, dl) => s!"{t}:{showD dl}")}")
+    else
     let s := { s with last := some ⟨nat! off, nat! ts, nat! ty, natList d, nat! opt⟩ }
     let (e, r) := upcastStored s.g s.errH ⟨nat! off, nat! ts, nat! ty, natList d, nat! opt⟩
     -- an upcaster with tag ≥ 200 starts a concurrent ClearUpcasts when it is invoked: the chain is applied against
